@@ -372,6 +372,11 @@ def name_return(sig_and_body, ret_name, log):
 def apply_splices(body, splices, log, what):
     """insert proof text after the first line matching a regex (anchor) inside a body"""
     for sp in splices or []:
+        if sp.get("at_start"):
+            # right after the opening brace of the body
+            body = "{\n" + sp["text"].rstrip("\n") + "\n" + body[1:].lstrip("\n")
+            log.append("splice ghost/proof block at the start of the body")
+            continue
         rx = re.compile(sp["after"], re.M)
         m = rx.search(body)
         if not m:
@@ -509,6 +514,21 @@ def extract(unit, repo, verus_dir):
             new = head + "".join(pieces) + "}"
             if it.get("pre_impl"):
                 new = it["pre_impl"] + "\n" + new
+        elif kind == "method_as_fn":
+            # R8: a trait-impl method lifted to a free function of another name; body verbatim
+            hm = re.search(it["header"], masked, re.M)
+            if not hm:
+                raise AnchorLost("impl header %r not found" % it["header"])
+            b = masked.index("{", hm.start())
+            be = match_close(masked, b)
+            s0, kw, pe, bb, e0 = slice_fn(src, masked, name, within=(b, be))
+            start = s0
+            orig = src[s0:e0]
+            txt = re.sub(r"(pub\s+)?\bfn\s+%s\b" % re.escape(name), "pub fn " + it["as"], orig, count=1)
+            txt = "\n".join(l[4:] if l.startswith("    ") else l for l in txt.split("\n"))
+            log.append("R8 trait-impl method `%s` lifted to free fn `%s` (body verbatim)" % (name, it["as"]))
+            new = contract_fn(txt, it, log, what)
+            functions.append((it["as"], it["file"], bool(it.get("contract")), bool(it.get("external_body"))))
         elif kind == "newtype_enum":
             start, end, consts = slice_newtype_enum(src, masked, name)
             orig = src[start:end]
